@@ -117,6 +117,9 @@ func runIDPool(t *testing.T, c *Case) *Outcome {
 			}
 		}
 		statesSeen[stateKey()] = true
+		if size <= 16 {
+			o.cover(fmt.Sprintf("[%d..%d] %s", min, max, stateKey()))
+		}
 	}
 	// Drain: exactly the free identifiers must still be allocatable, each once.
 	free := size - len(out)
@@ -876,6 +879,7 @@ func runTrie(t *testing.T, c *Case) *Outcome {
 		}
 	}
 	o.StateHash = hashStrings(append([]string{store}, keysOf(model)...))
+	o.cover(store + ":" + strings.Join(keysOf(model), ","))
 	o.Nontrivial = len(c.Steps) >= 2
 	return o
 }
